@@ -1,6 +1,7 @@
 mod common;
 mod p_batched;
 mod p_coo;
+mod p_cstr;
 mod p_dict;
 mod p_bpetrain;
 mod p_edit;
@@ -36,6 +37,7 @@ fn component(name: &str) -> (ExecFn, GenFn) {
         "metrics" => (p_words::exec_metrics, p_words::gen_metrics),
         "editword" => (p_editword::exec, p_editword::gen),
         "windows" => (p_windows::exec, p_windows::gen),
+        "cstr" => (p_cstr::exec, p_cstr::gen),
         "ws" => (p_ws::exec, p_ws::gen),
         "bpetrain" => (p_bpetrain::exec, p_bpetrain::gen),
         "tok" => (p_tok::exec, p_tok::gen),
@@ -81,6 +83,8 @@ fn main() {
                 args[2].parse().expect("W"),
                 args[3].parse().expect("N"),
                 args[4].parse().expect("fail"),
+                args.get(5).and_then(|s| s.parse().ok()).unwrap_or(0),
+                args.get(6).map(|s| s == "1").unwrap_or(false),
             );
         }
         _ => usage(),
